@@ -397,3 +397,56 @@ func DealCmp(ids []party.ID, t int, seed string) map[party.ID]interface{} {
 	})
 	return out
 }
+
+// ---------------------------------------------------------------------------------------------
+
+// CloneConfig deep-copies key material so that a session cannot alter what another one starts from
+// (FROST refresh adds the new sub-shares to the caller's PrivateShare in place).
+func CloneConfig(cfg interface{}) interface{} {
+	switch c := cfg.(type) {
+	case *frost.Config:
+		pts := map[party.ID]curve.Point{}
+		for id, p := range c.VerificationShares.Points {
+			pts[id] = p.Add(p.Curve().NewPoint())
+		}
+		return &frost.Config{ID: c.ID, Threshold: c.Threshold,
+			PrivateShare:       c.PrivateShare.Curve().NewScalar().Set(c.PrivateShare),
+			PublicKey:          c.PublicKey.Add(c.PublicKey.Curve().NewPoint()),
+			ChainKey:           append([]byte(nil), c.ChainKey...),
+			VerificationShares: party.NewPointMap(pts)}
+	case *frost.TaprootConfig:
+		cl := c.Clone()
+		vs := map[party.ID]*curve.Secp256k1Point{}
+		for id, p := range c.VerificationShares {
+			vs[id] = p.Add(curve.Secp256k1{}.NewPoint()).(*curve.Secp256k1Point)
+		}
+		cl.VerificationShares = vs
+		return cl
+	case *cmp.Config:
+		b, err := c.MarshalBinary()
+		if err != nil {
+			return c
+		}
+		out := cmp.EmptyConfig(c.Group)
+		if err := out.UnmarshalBinary(b); err != nil {
+			return c
+		}
+		return out
+	case *doerner.ConfigReceiver:
+		return &doerner.ConfigReceiver{Setup: c.Setup, SecretShare: c.SecretShare.Curve().NewScalar().Set(c.SecretShare),
+			Public: c.Public.Add(c.Public.Curve().NewPoint()), ChainKey: append([]byte(nil), c.ChainKey...)}
+	case *doerner.ConfigSender:
+		return &doerner.ConfigSender{Setup: c.Setup, SecretShare: c.SecretShare.Curve().NewScalar().Set(c.SecretShare),
+			Public: c.Public.Add(c.Public.Curve().NewPoint()), ChainKey: append([]byte(nil), c.ChainKey...)}
+	}
+	return cfg
+}
+
+// CloneConfigs clones a whole map.
+func CloneConfigs(cfgs map[party.ID]interface{}) map[party.ID]interface{} {
+	out := map[party.ID]interface{}{}
+	for id, c := range cfgs {
+		out[id] = CloneConfig(c)
+	}
+	return out
+}
